@@ -89,6 +89,11 @@ def make_case(tier, seed, index):
         return {"kind": "count", "family": fam, "transport": tr, "history": hist, "keep_alive": bool(bits & 1) ^ (fam == "DT"),
                 "timeout": 0.5, "retries": 1}
     i -= n_count_sweep()
+    if i < N_COUNT_RANDOM[tier] and i % 4 == 3:
+        fam, tr = rnd.choice(COUNT_CFG)
+        hist = [rnd.choice(["ok", "fail", "fail"]) for _ in range(rnd.choice([2, 4, 6, 8]))]
+        return {"kind": "count", "family": fam, "transport": tr, "history": hist, "keep_alive": rnd.random() < 0.5,
+                "timeout": 0.5, "retries": rnd.choice([0, 1]), "overlap": True}
     if i < N_COUNT_RANDOM[tier]:
         fam, tr = rnd.choice(COUNT_CFG)
         hist = [rnd.choice(["ok", "fail", "fail_err", "fail_err", "reject", "fail_garbage"] if fam != "ES" else
@@ -297,7 +302,30 @@ def run_count(case):
     name = {"ES": "read_runtime_data", "ET": "read_sensor:modbus-35100", "DT": "read_sensor:modbus-30100"}[fam]
     recs = []
 
+    async def overlapped():
+        # the history in groups of two OVERLAPPING calls (the second one is issued while the first is in progress and
+        # queues for the lock); the count reported by each failure must still be the number of failures since the last
+        # success, in the order in which the calls end
+        r = case["retries"]
+        hist = case["history"]
+        for g in range(0, len(hist), 2):
+            group = hist[g:g + 2]
+            faults = []
+            for h in group:
+                faults += [{"k": "drop"}] * (r + 1) if h == "fail" else [{"k": "ok"}]
+            world.net.begin_script(faults, {"k": "ok"})
+
+            async def one(h, delay):
+                if delay:
+                    await asyncio.sleep(delay)
+                recs.append((h, await C.do_call(world, name, _call(inv, name))))
+
+            await asyncio.gather(*[one(h, j * EPS) for j, h in enumerate(group)])
+
     async def main():
+        if case.get("overlap"):
+            await overlapped()
+            return
         for h in case["history"]:
             if h == "ok":
                 world.net.begin_script([], {"k": "ok"})
